@@ -34,5 +34,30 @@ TEXT = {
         "level": "Sampled exploration of precondition-meeting dictionaries x sentences x 8 re-spacings each.",
         "note": "Exact token equality is demanded only when the reference optimum is unique.",
     },
+    "C05": {
+        "technique": "runtime monitor: observational equivalence D vs read(write(D)) (tokens, all connector cells, bytes) across later-operation histories; fault-injecting writer; portable<->AVX2 exchange; ASan on decode",
+        "level": "Sampled exploration of dictionaries (all connector kinds, user lexicon, mapper) x later API operation sequences; the same seeds run in a portable and an AVX2 build whose images and results are compared.",
+        "note": "Equivalence is observed on sampled sentences and all connector cells, not proved for all inputs.",
+    },
+    "C07": {
+        "technique": "runtime monitor: defining feature-pair sum vs real raw/dual connector on all id pairs + probe sentences; bounded-exhaustive scorer key sets; Miri (portable and +avx2), valgrind memcheck and ASan on the gather path",
+        "level": "Sampled exploration at model level, small-scope exhaustive at scorer level (all key sets of size <= 3 over a 5x5 universe, all probes), UB interpretation of the real scorer code under Miri in both code paths.",
+        "note": "The dual connector is compared only under its stated precondition (guaranteed by the generator's cost bound).",
+    },
+    "C09": {
+        "technique": "fault enumeration: every truncation point of sampled images + hostile readers/writers + all single-byte header corruptions; outcome classifier",
+        "level": "Exhaustive over the truncation points of the images enumerated (every strict prefix of one image per connector kind, ~10^6 decode attempts); images sampled; ASan re-runs a stride sample in thorough.",
+        "note": "Err is required for every strict prefix; panics count as violations; reader/writer faults are injected through std::io traits.",
+    },
+    "C11": {
+        "technique": "runtime monitor: generator's structured rows vs word_feature()/lattice nodes of the compiled lexicon",
+        "level": "Sampled exploration of well-formed CSVs with random quoting and end-of-file variants, system and user side.",
+        "note": "Well-formedness as listed in the evidence assumptions.",
+    },
+    "C13": {
+        "technique": "runtime monitor: independent recount of connection-cost evaluations on a reference lattice + hooked CostEval event log; end-to-end map acceptance",
+        "level": "Sampled exploration of dictionaries x line histories (empty lines, repeats, trailing spaces); thorough also drives the real compile/reorder/map/tokenize CLIs.",
+        "note": "The verdict follows the reference recount; the event log is evidence (an implementation may cache evaluations).",
+    },
 }
 NOT_APPLICABLE = []
